@@ -7,6 +7,7 @@ CONSTANTS MaxLinks = 2
  Damage = 1
  Clamp = FALSE
  Trim = FALSE
+ SearchFrom = "dataoffset"
 INVARIANT NoLoopBoundHit
 INVARIANT ProbesInsideFile
 INVARIANT TableSane
